@@ -113,6 +113,12 @@ def gen_labware(rng, name, kind=None, vclass="int", fill="mixed", limits="loose"
         "naming": naming,
         "names": None,
     }
+    # fixed, unique deck position (grid, site) per labware: lets the interpreter resolve script commands
+    try:
+        i = int(name[1:])
+    except ValueError:
+        i = 0
+    d["grid_site"] = [10 + 3 * i, 1 + i]
     if naming == "explicit":
         d["names"] = {f"{r},{c}": f"{name}@{r}.{c}" for r in range(rows) for c in range(cols) if initial[r][c] > 0}
     return d
